@@ -184,8 +184,11 @@ def value_ok(levels, durs, shapes, t, v, exact):
     hit = [k for k in range(n + 1) if abs(t - bp[k]) <= (0.0 if exact else teps)]
     if hit:
         lo_k, hi_k = hit[0], hit[-1]
-        if exact or not any(shapes[k] in DISCONTINUOUS
-                            for k in range(max(0, lo_k - 1), min(n, hi_k + 1))):
+        # the envelope is continuous at this time unless a step / hold segment
+        # ends or starts here or zero-length segments make it jump
+        if exact or (lo_k == hi_k and not any(
+                shapes[k] in DISCONTINUOUS
+                for k in range(max(0, lo_k - 1), min(n, hi_k + 1)))):
             # all segments between the hit breakpoints have zero length; the
             # envelope is at the last of them, about to start segment hi_k
             if hi_k == n:
